@@ -30,8 +30,9 @@ func randomOp(rng *rand.Rand, kind string, keys int, fresh *int) string {
 	*fresh++
 	v := *fresh
 	if kind == "cache" {
-		// elements: never expiring (vu 0), already expired (vu 1; rounds start at elapsed >= 2 s) or far future
-		vu := []int{0, 1, 1, 100000}[rng.Intn(4)]
+		// elements: never expiring (vu 0), already expired (vu 1; rounds start at elapsed >= 2 s), far future, or at the far end
+		// of the time axis (beyond the year 2262, where int64 Unix nanoseconds end; clock + math.MaxInt64 ns = "practically never")
+		vu := []int{0, 1, 1, 100000, 8300000000, 9223372036}[rng.Intn(6)]
 		val := fmt.Sprintf("%d@%d", v, vu)
 		switch rng.Intn(10) {
 		case 0, 1, 2:
